@@ -8,7 +8,7 @@ From C11.gen Require Import Facts.
    user-provided copy and move construction/assignment; the others: memberwise copies, no move);
    (2) every constructor and mutating member of ArrayView / OwnedArray / FixedArray / FixedArrayView, as the ordered
    list of micro-operations extracted from its body and interpreted over the model's heap with the model's own
-   primitives, produces on each of the 96 configurations of FactsCheck.configs exactly the state Model.step_new
+   primitives, produces on each of the 105 configurations of FactsCheck.configs exactly the state Model.step_new
    produces for the corresponding operation (so e.g. every mutation of dataBuf is followed by
    setPtr(dataBuf.data(), dataBuf.size()), and FixedArrayView holds its own FixedArray sharing the allocation);
    (3) AbstractArray's accessors, setPtr and at() and DataView's constructor, reset and operator[], as the
